@@ -12,9 +12,45 @@ Decided:
               stored payload must be derived from the payload bytes themselves (plan_document_chunks, which requires
               valid UTF-8); a plan derived from *extracted* text (lossy) makes the canonical payload of a binary
               document differ from what was stored.
+  PAIR-C07e   cursor discipline: a `std::fs::File` cursor is shared by every clone of the handle (try_clone), so a read
+              through std::io::Read on a File is exact only if the same function positioned that handle first. Every
+              Read::{read, read_exact, read_to_end, ...} whose receiver is a File is dominated by a successful
+              seek/rewind on a File in the same function; reviewed exceptions keyed by function (a freshly opened
+              handle). Positional reads (read_at / read_exact_at) carry their own offset and are outside the rule.
 Not decided: byte equality of reads with puts (values), normalisation of text."""
 from . import lib
 from .facts import Place, op_place
+
+STD_READS = ('read', 'read_exact', 'read_to_end', 'read_to_string', 'read_buf', 'read_vectored')
+UNPOSITIONED_OK = {
+    'Memvid::open_locked': 'first read of a handle opened a few lines above (cursor 0): the header',
+    'models::compute_sha256_hex': 'hashes a model file it has just opened, start to end (not the memory file)',
+}
+
+
+def cursor_discipline(ctx, F):
+    ctx.rule('PAIR-C07e', 'every std Read call on a File is dominated by a seek on a File in the same function (shared cursor of cloned handles)')
+    n = 0
+    for f in sorted(F.fns.values(), key=lambda x: x.path):
+        if f.r.get('derive'):
+            continue
+        rs = [c for c in f.calls() if c.name in STD_READS and c.args and 'fs::File' in (c.self_ty() or '') and (c.key.startswith('Read::') or ' as Read>' in c.key or ' as std::io::Read>' in c.key)]
+        if not rs:
+            continue
+        seeks = [c for c in f.calls() if c.name in ('seek', 'rewind') and c.args and 'fs::File' in (c.self_ty() or '')]
+        ctx.touch(f, len(rs) + len(seeks))
+        for r in rs:
+            n += 1
+            k = f.key
+            if any(lib.call_success_dominates(f, sk, r.bb) for sk in seeks):
+                ctx.ok('PAIR-C07e', f, '%s on a File after positioning it' % r.name, line=r.line)
+            elif k in UNPOSITIONED_OK:
+                ctx.ok('PAIR-C07e', f, 'reviewed: ' + UNPOSITIONED_OK[k], line=r.line)
+            else:
+                ctx.bad('PAIR-C07e', f, '%s on a File without positioning it in this function: the cursor is shared with every clone of the handle (Memvid\'s own reads, other readers), '
+                        'so the bytes returned depend on what else touched the file' % r.name, line=r.line, sink=r.name, detail='read-at-unknown-cursor')
+    ctx.floor('PAIR-C07e', n, 15, 'std Read calls on File handles')
+
 
 INVERSE = {'Plain': (None, None), 'Zstd': ('zstd::encode_all', 'zstd::decode_all')}
 
@@ -25,6 +61,7 @@ def run(ctx):
     ctx.rule('AGREE-C07c', 'canonical payload of a chunked document = concat(document_chunk_payloads ordered by (chunk_index, id))')
     ctx.rule('FLOW-C07d', 'chunk plans that replace the stored payload on read derive from the payload bytes, not from extracted text')
     F = ctx.facts()
+    cursor_discipline(ctx, F)
     enc = ctx.need('AGREE-C07a', 'memvid::mutation::prepare_canonical_payload_with_level')
     dec = ctx.need('AGREE-C07a', 'decode_canonical_bytes')
     if enc is not None and dec is not None:
